@@ -58,6 +58,13 @@ def _int(x):
     return None
 
 
+def _int_nested(x):
+    if isinstance(x, list):
+        out = [_int_nested(v) for v in x]
+        return None if any(v is None for v in out) else out
+    return _int(x)
+
+
 def _q(x):
     """float -> [n, d] (encoder (i)); inf -> [1, 0]; None if not encodable"""
     x = float(x)
@@ -304,13 +311,13 @@ class World(object):
             arr = [_int(x) for x in sys_.as_per_substance_array(dict(arg["d"]))]
             dct = {k: _int(v) for k, v in sys_.as_per_substance_dict(list(arg["a"])).items()}
             idx = {s: _int(sys_.as_substance_index(s)) for s in sys_.substances}
-            var, keys = sys_.per_substance_varied(dict(arg["d"]), {arg["vs"]: list(arg["vals"])})
-            varied = [[_int(x) for x in row] for row in var.tolist()]
-            if None in arr or None in dct.values() or None in idx.values() or any(None in r for r in varied):
+            # the caller lists the varied substances in the order arg["vorder"]
+            var, keys = sys_.per_substance_varied(dict(arg["d"]),
+                                                  OrderedDict((k, list(arg["vals"][k])) for k in arg["vorder"]))
+            varied = _int_nested(var.tolist())
+            if None in arr or None in dct.values() or None in idx.values() or varied is None:
                 return _bad("non-integer entry")
-            if tuple(keys) != (arg["vs"],):
-                return _bad("varied keys")
-            return _ok(arr=arr, dict=dct, idx=idx, varied=varied)
+            return _ok(arr=arr, dict=dct, idx=idx, vkeys=list(keys), varied=varied)
         if kind == "bounds":
             ub = [_q(x) for x in sys_.upper_conc_bounds(dict(arg))]
             if None in ub:
@@ -343,8 +350,17 @@ class World(object):
             return _ok(sum=sorted(m[:len(sum_.rxns)]), dup=sorted(m[len(sum_.rxns):]))
         raise core.MachineryFailure("unknown query %r" % (kind,))
 
+    def query_cat(self, h):
+        systems = [self.ws[j - 1] for j in h["js"]]
+        pools = [(k, list(s.rxns)) for k, s in enumerate(systems, 1)]
+        sum_, dup = self.RS.concatenate(systems)
+        m = _match(list(sum_.rxns) + list(dup.rxns), pools)
+        if m is None:
+            return _bad("foreign reaction")
+        return _ok(sum=sorted(m[:len(sum_.rxns)]), dup=sorted(m[len(sum_.rxns):]))
+
     def step(self, h):
-        fn = {"Make": self.make, "DoSplit": self.do_split, "DoSubset": self.do_subset, "DoAdd": self.do_add,
+        fn = {"QueryCat": self.query_cat, "Make": self.make, "DoSplit": self.do_split, "DoSubset": self.do_subset, "DoAdd": self.do_add,
               "Query": self.query, "Query2": self.query2}.get(h["op"])
         if fn is None:
             raise core.MachineryFailure("unknown operation %r" % (h,))
@@ -410,7 +426,7 @@ def disagreement(h, o, exp):
 FN = {"graph": "split/categorize_substances/identify_equilibria/substance_participation/per_reaction_effect_on_substance",
       "dot": "chempy.util.graph.rsys2dot", "subset": "ReactionSystem.subset", "conv": "as_per_substance_array/dict/index/varied",
       "bounds": "ReactionSystem.upper_conc_bounds", "yields": "decompose_yields", "add": "ReactionSystem.__add__",
-      "eq": "ReactionSystem.__eq__", "concat": "ReactionSystem.concatenate", "shape": "ReactionSystem",
+      "eq": "ReactionSystem.__eq__", "concat": "ReactionSystem.concatenate", "concatn": "ReactionSystem.concatenate", "shape": "ReactionSystem",
       "Make": "ReactionSystem()", "DoSplit": "ReactionSystem.split", "DoSubset": "ReactionSystem.subset",
       "DoAdd": "ReactionSystem.__add__/__iadd__"}
 
@@ -598,9 +614,10 @@ def gen_history(arg):
         elif x < 0.78:
             if not names:
                 continue
+            vo = rng.sample(names, rng.randint(1, min(3, len(names))))
             h = {"op": "Query", "i": i, "kind": "conv",
                  "arg": {"d": {s: rng.randint(0, 99) for s in names}, "a": [rng.randint(0, 99) for _ in names],
-                         "vs": rng.choice(names), "vals": [rng.randint(0, 99) for _ in range(rng.randint(1, 3))]}}
+                         "vorder": vo, "vals": {s: [rng.randint(0, 99) for _ in range(rng.randint(1, 3))] for s in vo}}}
         elif x < 0.88:
             if sys_.nr == 0 or sys_.nr > 4:
                 continue
@@ -612,7 +629,12 @@ def gen_history(arg):
         elif x < 0.96:
             h = {"op": "Query2", "i": i, "j": j, "kind": rng.choice(["add", "eq"])}
         else:
-            h = {"op": "Query2", "i": i, "j": j, "kind": "concat"}
+            if n >= 3 and rng.random() < 0.6:
+                h = {"op": "QueryCat", "js": rng.sample(range(1, n + 1), rng.randint(2, min(4, n))), "kind": "concatn"}
+                if sum(w.ws[k - 1].nr for k in h["js"]) > 20:
+                    continue
+            else:
+                h = {"op": "Query2", "i": i, "j": j, "kind": "concat"}
             do(h)
             break  # concatenate updates its first argument in place: the workspace is no longer tracked
         if not do(h):
@@ -647,28 +669,34 @@ def run(ctx):
     # (vacuity of the actions is checked on the history slice, which has the same Next)
     ctx.tlc("RSysGraph_MC", "RSysGraph_MC_inv_%s.cfg" % sfx, timeout=1500, workers=8)
     t0 = _t(ctx, "invariants", t0)
-    _slice(ctx, "ctor_" + sfx, None if not q else 1000, ["PickRx", "GenMake"])
-    _slice(ctx, "graph_" + sfx, 2500 if q else None, ["PickRx", "GenMake", "GenQuery"])
+    # (vacuity guard by -coverage only where an action is specific to the slice; it slows TLC down)
+    _slice(ctx, "ctor_" + sfx, None if not q else 1000, [])
+    _slice(ctx, "graph_" + sfx, 2000 if q else None, [], min_cases=2000)
     # every ordering of up to 6 reactions of the chained shape whose split needs transitive fusion
-    _slice(ctx, "chain", None, ["PickRx", "GenMake", "GenQuery"])
+    _slice(ctx, "chain_" + sfx, None, [], min_cases=2000)
     t0 = _t(ctx, "ctor+graph+chain", t0)
     # the reaction graph as an object: rsys2dot output parsed back into nodes/edges (catalog with two
     # reactions carrying inactive parts; include_inactive True/False); graph queries on the same systems
-    _slice(ctx, "dot_" + sfx, 1500 if q else None, ["PickRx", "GenMake", "GenQuery"])
+    _slice(ctx, "dot_" + sfx, 1500 if q else None, [], min_cases=1000)
     t0 = _t(ctx, "dot", t0)
-    _slice(ctx, "subset_" + sfx, 1500 if q else None, ["GenQuery"])
+    if q:
+        _slice(ctx, "subyld_q", 2500, [], min_cases=2000)
+    else:
+        _slice(ctx, "subset_t", None, [])
+        _slice(ctx, "yields_t", None, [])
     _slice(ctx, "pair_" + sfx, 2500 if q else None, ["GenQuery2"])
-    _slice(ctx, "conv", None, ["GenQuery"])
+    _slice(ctx, "conv_" + sfx, 2500 if q else None, [], min_cases=1000)
+    # concatenate over three systems (every ordering), directly and after split/subset/add steps
+    _slice(ctx, "cat3_" + sfx, 2500 if q else 30000, ["GenQueryCat"])
     t0 = _t(ctx, "subset+pair+conv", t0)
-    _slice(ctx, "bounds_" + sfx, 1500 if q else None, ["GenQuery"])
-    _slice(ctx, "yields_" + sfx, 1500 if q else None, ["GenQuery"])
-    t0 = _t(ctx, "bounds+yields", t0)
-    _slice(ctx, "hist_" + sfx, 2000 if q else 12000, ["GenSplit", "GenSubset", "GenAdd", "GenQuery"], via_tlc=True)
+    _slice(ctx, "bounds_" + sfx, 1500 if q else None, [], min_cases=1000)
+    t0 = _t(ctx, "bounds", t0)
+    _slice(ctx, "hist_" + sfx, 1500 if q else 12000, ["PickRx", "GenMake", "GenSplit", "GenSubset", "GenAdd", "GenQuery", "GenQueryCat"], via_tlc=True)
     if not q:
-        _slice(ctx, "hist2_t", 12000, ["GenSplit", "GenSubset", "GenAdd", "GenQuery"], via_tlc=True)
+        _slice(ctx, "hist2_t", 12000, [], via_tlc=True)
     t0 = _t(ctx, "histories", t0)
     ctx.exhaustive = not q
-    _code_to_spec(ctx, 1000 if q else 12000)
+    _code_to_spec(ctx, 800 if q else 12000)
     _t(ctx, "seeded", t0)
 
 
